@@ -387,7 +387,7 @@ class DecayMegacomplexMatrix(Contract):
     agreement_runs = 0
 
     def cases(self, tier):
-        for kind in ("decay-sequential", "decay-parallel", "decay-chain", "decay-chain-initial-order", "decay-two-kmatrices", "decay-two-kmatrices-reversed", "decay-kmatrices-override"):
+        for kind in ("decay-sequential", "decay-parallel", "decay-sequential-unsorted", "decay-parallel-unsorted", "decay-chain", "decay-chain-initial-order", "decay-two-kmatrices", "decay-two-kmatrices-reversed", "decay-kmatrices-override"):
             for n in (1, 2, 3) if tier == "quick" else (1, 2, 3, 4):
                 if kind.startswith("decay-two-kmatrices") and n < 2:
                     continue
@@ -403,6 +403,10 @@ class DecayMegacomplexMatrix(Contract):
 
         n, kind = case["n"], case["kind"]
         names = comp_names(n)
+        if kind.endswith("-unsorted"):
+            # compartments declared in an order that is not the lexicographic one (S2 -> S1 -> T1): the declaration order is the chain
+            names = list(reversed(names))
+            kind = kind[: -len("-unsorted")]
         ks = [S.real(f"k_{i}") for i in range(n)]
         for i in range(n):
             S.require(L.gt(ks[i], 0), "rate constants positive")
